@@ -23,6 +23,7 @@ def lcg_menu(ns, ratios, seeds):
 def builds():
     return vlib.build_many([
         dict(name="meta_real", src="meta.cpp"),
+        dict(name="meta_real_cxx17", src="meta.cpp", flags=vlib.CXX17_FLAGS),
         dict(name="meta_shim", src="meta.cpp", flags=vlib.BASE_FLAGS + ["-DMETA_SHIM"], shim_first=[V + "/shim/vmpi", V + "/shim/vtbb"], libs=("-lboost_timer", "-lboost_serialization", "-lpthread")),
     ])
 
@@ -43,6 +44,7 @@ def run(tier):
                                                                                                           "--variants", "signed_mpi,fvs_mpi,fvs_tbb_mpi,iso_mpi,iso_tbb_mpi,signed_tbb,fvs_tbb,iso_tbb"] for n in range(2, 5)]),
             (real, "small G(4) x B3 (weights 2^25 + {1,2,3}: 26 significant bits), menu renumberings/orders, few unions, 6 variants", [["--mode", "small", "--n", 4, "--alpha", "B3", "--perms", "menu", "--orders", "menu", "--unions", "few"]]),
             (real, "small G(4) x A2 with an exterior weight map (interior property holds decoys), menu renumberings/orders, few unions, 6 variants", [["--mode", "small", "--n", 4, "--alpha", "A2", "--perms", "menu", "--orders", "menu", "--unions", "few", "--wmap", 1]]),
+            (b["meta_real_cxx17"], "the library compiled as C++17: small G(3..4) x A2, menu renumberings/orders, few unions, 6 variants", [["--mode", "small", "--n", n, "--alpha", "A2", "--perms", "menu", "--orders", "menu", "--unions", "few"] for n in (3, 4)]),
             (real, "large menu (small families), 15 images each", [["--mode", "large", "--families", SMALL_FAMS, "--patterns", "U,M2,M3"]]),
             (real, "large menu (mid families), 3 images each", [["--mode", "large", "--families", MID_FAMS, "--patterns", "U,M3", "--few-images"]]),
             (real, "fixed menu of 960 pseudo-random sparse graphs n=8..24 x 2 pseudo-random weightings, 3 images each (renumbering + insertion order), 6 variants",
@@ -62,7 +64,7 @@ def run(tier):
     for binary, bound, arglists in plan:
         for args in arglists:
             r = vlib.run_harness(binary, list(args) + ["--seed", vlib.seed(), "--deadline-s", int(c.remaining(30))])
-            c.add_run(r, bound + " :: " + r["args"], None, replay={"harness": "meta_shim" if binary == shim else "meta_real"})
+            c.add_run(r, bound + " :: " + r["args"], None, replay={"harness": "meta_shim" if binary == shim else "meta_real_cxx17" if binary == b["meta_real_cxx17"] else "meta_real"})
             c.extra["independent_reference_evaluations"] = c.extra.get("independent_reference_evaluations", 0) + r.get("independent_reference_evaluations", 0)
     return c.finish()
 
@@ -71,9 +73,9 @@ def replay(path):
     rp = vlib.load_replay(path)
     b = builds()
     h = (rp.get("replay") or {}).get("harness", "meta_real")
-    p = subprocess.run([b[h], "--replay-case", rp["case"]], stdout=subprocess.PIPE, stderr=subprocess.STDOUT, text=True)
+    p = subprocess.run([b[h], "--replay-case", rp["case"]] + vlib.replay_opts(rp, ("--wmap",)), stdout=subprocess.PIPE, stderr=subprocess.STDOUT, text=True)
     print(p.stdout[-3000:])
-    if "REPLAY-VIOLATION" in p.stdout:
+    if "REPLAY-VIOLATION" in p.stdout or p.returncode < 0:      # a replay that dies on a signal reproduces a crash
         print("VIOLATION property=C08 replay=%s" % path)
         return 1
     return 0
